@@ -13,7 +13,7 @@ Fixpoint plus_b (b : branch) : branch :=
   | BQ cs c QPlus rel b' => BQ (cs ++ [c]) c QStar rel (plus_b b')
   | BQ cs c k rel b' => BQ cs c k rel (plus_b b')
   | BAn cs eol b' => BAn cs eol (plus_b b')
-  | BD cs q b' => BD cs q (plus_b b')
+  | BD cs da q b' => BD cs da q (plus_b b')
   end
 with plus_a (a : alt) : alt :=
   match a with
@@ -28,7 +28,7 @@ Fixpoint opt_b (b : branch) : branch :=
   | BQ cs c QOpt false b' => BGrp cs true (ACons (BEnd [c]) (AOne (BEnd []))) (opt_b b')
   | BQ cs c k rel b' => BQ cs c k rel (opt_b b')
   | BAn cs eol b' => BAn cs eol (opt_b b')
-  | BD cs q b' => BD cs q (opt_b b')
+  | BD cs da q b' => BD cs da q (opt_b b')
   end
 with opt_a (a : alt) : alt :=
   match a with
@@ -44,7 +44,7 @@ Fixpoint atl_b (b : branch) : branch :=
   | BQ cs c (QBr ds BrOpen) rel b' => BQ (cs ++ repeat c (N.to_nat (dec ds))) c QStar rel (atl_b b')
   | BQ cs c k rel b' => BQ cs c k rel (atl_b b')
   | BAn cs eol b' => BAn cs eol (atl_b b')
-  | BD cs q b' => BD cs q (atl_b b')
+  | BD cs da q b' => BD cs da q (atl_b b')
   end
 with atl_a (a : alt) : alt :=
   match a with
@@ -68,7 +68,7 @@ Fixpoint bnd_b (b : branch) : branch :=
       else BQ cs c (QBr ds (BrTo d2)) rel (bnd_b b')
   | BQ cs c k rel b' => BQ cs c k rel (bnd_b b')
   | BAn cs eol b' => BAn cs eol (bnd_b b')
-  | BD cs q b' => BD cs q (bnd_b b')
+  | BD cs da q b' => BD cs da q (bnd_b b')
   end
 with bnd_a (a : alt) : alt :=
   match a with
@@ -99,7 +99,7 @@ Proof.
     apply andb_true_iff in H as [H Hr]. apply andb_true_iff in H as [Hcs Hc].
     destruct k; cbn [plus_b ok_b]; rewrite ?Hcs, ?Hc, ?Hr, ?Hk, ?(IHb Hb), ?(forallb_app_one cs c Hcs Hc); reflexivity.
   - intros cs eol b IHb H. cbn [plus_b ok_b] in *. apply andb_true_iff in H as [H Hb]. rewrite H, (IHb Hb). reflexivity.
-  - intros cs q b IHb H. cbn [plus_b ok_b] in *. apply andb_true_iff in H as [H Hb]. rewrite H, (IHb Hb). reflexivity.
+  - intros cs da q b IHb H. cbn [plus_b ok_b] in *. apply andb_true_iff in H as [H Hb]. rewrite H, (IHb Hb). reflexivity.
   - intros b IHb H. exact (IHb H).
   - intros b IHb a IHa H. cbn [plus_a ok_a] in *. apply andb_true_iff in H as [H1 H2]. rewrite (IHb H1), (IHa H2). reflexivity.
 Qed.
@@ -115,7 +115,7 @@ Proof.
     apply andb_true_iff in H as [H Hr]. apply andb_true_iff in H as [Hcs Hc].
     destruct k, rel; cbn [opt_b ok_b ok_a forallb orb]; rewrite ?Hcs, ?Hc, ?Hr, ?Hk, ?(IHb Hb); reflexivity.
   - intros cs eol b IHb H. cbn [opt_b ok_b] in *. apply andb_true_iff in H as [H Hb]. rewrite H, (IHb Hb). reflexivity.
-  - intros cs q b IHb H. cbn [opt_b ok_b] in *. apply andb_true_iff in H as [H Hb]. rewrite H, (IHb Hb). reflexivity.
+  - intros cs da q b IHb H. cbn [opt_b ok_b] in *. apply andb_true_iff in H as [H Hb]. rewrite H, (IHb Hb). reflexivity.
   - intros b IHb H. exact (IHb H).
   - intros b IHb a IHa H. cbn [opt_a ok_a] in *. apply andb_true_iff in H as [H1 H2]. rewrite (IHb H1), (IHa H2). reflexivity.
 Qed.
@@ -135,7 +135,7 @@ Proof.
     apply andb_true_iff in H as [H Hr]. apply andb_true_iff in H as [Hcs Hc].
     destruct k as [| | |ds [| |d2]]; cbn [atl_b ok_b]; rewrite ?Hcs, ?Hc, ?Hr, ?Hk, ?(IHb Hb), ?(forallb_app_rep cs c _ Hcs Hc); reflexivity.
   - intros cs eol b IHb H. cbn [atl_b ok_b] in *. apply andb_true_iff in H as [H Hb]. rewrite H, (IHb Hb). reflexivity.
-  - intros cs q b IHb H. cbn [atl_b ok_b] in *. apply andb_true_iff in H as [H Hb]. rewrite H, (IHb Hb). reflexivity.
+  - intros cs da q b IHb H. cbn [atl_b ok_b] in *. apply andb_true_iff in H as [H Hb]. rewrite H, (IHb Hb). reflexivity.
   - intros b IHb H. exact (IHb H).
   - intros b IHb a IHa H. cbn [atl_a ok_a] in *. apply andb_true_iff in H as [H1 H2]. rewrite (IHb H1), (IHa H2). reflexivity.
 Qed.
@@ -159,7 +159,7 @@ Proof.
     + cbn [ok_b okq]. rewrite (forallb_app_rep cs c _ Hcs Hc), Hc, Hr, (opts_ok xpath c rel _ _ Hc Hr (IHb Hb)). reflexivity.
     + cbn [ok_b]. rewrite Hcs, Hc, Hr, Hk, (IHb Hb). reflexivity.
   - intros cs eol b IHb H. cbn [bnd_b ok_b] in *. apply andb_true_iff in H as [H Hb]. rewrite H, (IHb Hb). reflexivity.
-  - intros cs q b IHb H. cbn [bnd_b ok_b] in *. apply andb_true_iff in H as [H Hb]. rewrite H, (IHb Hb). reflexivity.
+  - intros cs da q b IHb H. cbn [bnd_b ok_b] in *. apply andb_true_iff in H as [H Hb]. rewrite H, (IHb Hb). reflexivity.
   - intros b IHb H. exact (IHb H).
   - intros b IHb a IHa H. cbn [bnd_a ok_a] in *. apply andb_true_iff in H as [H1 H2]. rewrite (IHb H1), (IHa H2). reflexivity.
 Qed.
@@ -329,7 +329,7 @@ Proof.
   - intros cs eol b IHb Hok p q Hp. cbn [ok_b] in Hok. apply andb_true_iff in Hok as [_ Okb].
     cbn [plus_b Db]. apply flat_map_eqv; [reflexivity|]. intros x Hx y. apply (IHb Okb).
     apply in_flat_map in Hx as (k1 & Hk1 & Hx). apply lit_le in Hk1. eapply (Dan_le input ci multi single); [|exact Hx]. tauto.
-  - intros cs q0 b IHb Hok p q Hp. cbn [ok_b] in Hok. apply andb_true_iff in Hok as [Hok Okb]. apply andb_true_iff in Hok as [_ Hkq].
+  - intros cs da q0 b IHb Hok p q Hp. cbn [ok_b] in Hok. apply andb_true_iff in Hok as [Hok Okb]. apply andb_true_iff in Hok as [_ Hkq].
     cbn [plus_b Db]. apply flat_map_eqv; [reflexivity|]. intros x Hx y. apply (IHb Okb).
     apply in_flat_map in Hx as (k1 & Hk1 & Hx). apply lit_le in Hk1. eapply (Dd_le input ci multi single xpath); [exact Hkq| |exact Hx]. tauto.
   - intros b IHb Hok p q Hp. exact (IHb Hok p q Hp).
@@ -363,7 +363,7 @@ Proof.
   - intros cs eol b IHb Hok p q Hp. cbn [ok_b] in Hok. apply andb_true_iff in Hok as [_ Okb].
     cbn [opt_b Db]. apply flat_map_eqv; [reflexivity|]. intros x Hx y. apply (IHb Okb).
     apply in_flat_map in Hx as (k1 & Hk1 & Hx). apply lit_le in Hk1. eapply (Dan_le input ci multi single); [|exact Hx]. tauto.
-  - intros cs q0 b IHb Hok p q Hp. cbn [ok_b] in Hok. apply andb_true_iff in Hok as [Hok Okb]. apply andb_true_iff in Hok as [_ Hkq].
+  - intros cs da q0 b IHb Hok p q Hp. cbn [ok_b] in Hok. apply andb_true_iff in Hok as [Hok Okb]. apply andb_true_iff in Hok as [_ Hkq].
     cbn [opt_b Db]. apply flat_map_eqv; [reflexivity|]. intros x Hx y. apply (IHb Okb).
     apply in_flat_map in Hx as (k1 & Hk1 & Hx). apply lit_le in Hk1. eapply (Dd_le input ci multi single xpath); [exact Hkq| |exact Hx]. tauto.
   - intros b IHb Hok p q Hp. exact (IHb Hok p q Hp).
@@ -401,7 +401,7 @@ Proof.
   - intros cs eol b IHb Hok p q Hp. cbn [ok_b] in Hok. apply andb_true_iff in Hok as [_ Okb].
     cbn [atl_b Db]. apply flat_map_eqv; [reflexivity|]. intros x Hx y. apply (IHb Okb).
     apply in_flat_map in Hx as (k1 & Hk1 & Hx). apply lit_le in Hk1. eapply (Dan_le input ci multi single); [|exact Hx]. tauto.
-  - intros cs q0 b IHb Hok p q Hp. cbn [ok_b] in Hok. apply andb_true_iff in Hok as [Hok Okb]. apply andb_true_iff in Hok as [_ Hkq].
+  - intros cs da q0 b IHb Hok p q Hp. cbn [ok_b] in Hok. apply andb_true_iff in Hok as [Hok Okb]. apply andb_true_iff in Hok as [_ Hkq].
     cbn [atl_b Db]. apply flat_map_eqv; [reflexivity|]. intros x Hx y. apply (IHb Okb).
     apply in_flat_map in Hx as (k1 & Hk1 & Hx). apply lit_le in Hk1. eapply (Dd_le input ci multi single xpath); [exact Hkq| |exact Hx]. tauto.
   - intros b IHb Hok p q Hp. exact (IHb Hok p q Hp).
@@ -459,7 +459,7 @@ Proof.
   - intros cs eol b IHb Hok p q Hp. cbn [ok_b] in Hok. apply andb_true_iff in Hok as [_ Okb].
     cbn [bnd_b Db]. apply flat_map_eqv; [reflexivity|]. intros x Hx y. apply (IHb Okb).
     apply in_flat_map in Hx as (k1 & Hk1 & Hx). apply lit_le in Hk1. eapply (Dan_le input ci multi single); [|exact Hx]. tauto.
-  - intros cs q0 b IHb Hok p q Hp. cbn [ok_b] in Hok. apply andb_true_iff in Hok as [Hok Okb]. apply andb_true_iff in Hok as [_ Hkq].
+  - intros cs da q0 b IHb Hok p q Hp. cbn [ok_b] in Hok. apply andb_true_iff in Hok as [Hok Okb]. apply andb_true_iff in Hok as [_ Hkq].
     cbn [bnd_b Db]. apply flat_map_eqv; [reflexivity|]. intros x Hx y. apply (IHb Okb).
     apply in_flat_map in Hx as (k1 & Hk1 & Hx). apply lit_le in Hk1. eapply (Dd_le input ci multi single xpath); [exact Hkq| |exact Hx]. tauto.
   - intros b IHb Hok p q Hp. exact (IHb Hok p q Hp).
